@@ -582,7 +582,10 @@ class RecipeGen:
                     n = self.fresh()
                     conc = {'s': 'M', 'v': gen.dec(cur * rng.choice([0.2, 0.5, 0.8, 1.5 if rng.random() < 0.2 else 0.4]), 2)}
                     q = gen.pick_qty(rng, E.env[c].volume * 1e-6 * rng.choice([0.1, 0.3]), 'L', sig=2)
-                    self.try_step({'op': 'solfrom', 'src': c, 'name': n, 'solute': E.byname[s.name], 'c': conc, 'solvent': solvent['id'], 'q': q})
+                    from pyplate.pyplate import Unit as _U
+                    stock_mol = _U.convert_from(s, E.env[c].contents[s], _cfg().moles_storage_unit, 'mol')
+                    self.try_step({'op': 'solfrom', 'src': c, 'name': n, 'solute': E.byname[s.name], 'c': conc, 'solvent': solvent['id'], 'q': q,
+                                   'stock_mol': '%.3g' % stock_mol})
         elif k == 'dilute':
             cand = [(c, s) for c in nonempty for s in E.env[c].contents if s.is_solid() and E.env[c].contents[s] > 0 and E.env[c].has_liquid()]
             solvent = g.sub(kind=('Liquid',))
@@ -656,9 +659,22 @@ def totals(subs, d, unit):
     return [histcheck.measure(subs, c, b) / dsl.PFX[p][1] for c in containers(d)]
 
 
+def _cfg():
+    from pyplate.pyplate import config
+    return config
+
+
 def relax(prog):
     """create_solution_from rounds the stock's solute to 1e-10 mol: results are only ~1e-7 exact (DESIGN 4.4)"""
-    return F(1, 10**6) if any(s['op'] in ('solfrom', 'solutionc') for s in prog['steps']) else F(2, 10**8)
+    if not any(s['op'] in ('solfrom', 'solutionc') for s in prog['steps']):
+        return F(2, 10**8)
+    # the stock's solute is read through convert_from_storage(.., 'mol'), i.e. rounded to 1e-10 mol: a stock holding n mol of
+    # the solute gives amounts that are exact to about 1e-10 / n only (the generator records n with the step)
+    rt = F(1, 10**6)
+    for s in prog['steps']:
+        if s['op'] == 'solfrom' and s.get('stock_mol'):
+            rt = max(rt, F(10) * F(1, 10**10) / F(s['stock_mol']))
+    return rt
 
 
 def check(chk, tag, gens_queries, oracle, rule, nontrivial_key, d13=True):
